@@ -16,7 +16,7 @@ from __future__ import annotations
 
 from .. import tlc
 from ..core import Ctx, pmap
-from ..routing_build import edge_cases, gen_case, run_case, sweep_cases, txt
+from ..routing_build import alias_cases, concurrent_cases, edge_cases, run_concurrent, gen_case, run_case, run_history, sweep_cases, txt
 
 LEVEL = "model_checking"
 AREA = "routing"
@@ -30,7 +30,9 @@ def _run(job):
     kind, arg = job
     case = gen_case(arg) if kind == "rand" else arg
     try:
-        return run_case(case)
+        if case.get("concurrent"):
+            return run_concurrent(case)
+        return run_history(case) if case.get("hist_mode") else run_case(case)
     except Exception as e:  # noqa: BLE001  -- construction problems of the harness itself are machinery
         return [{"op": "harness_error", "err": f"{type(e).__name__}: {e}", "case": case}]
 
@@ -92,7 +94,10 @@ def run(ctx: Ctx):
                 "query values, force_external); executed as build -> deliver -> match (same adapter and bind_to_environ) -> Request.args -> rebuild, "
                 "then match / build / rematch on mutated neighbours of the delivered path; plus TLC-exported model cases, a code point sweep and a fixed "
                 "enumeration of boundary values (texts ending / starting with LF, CR, space, '.', '%', '%0A', '+', '?', '#'; numbers 0, -0, min / max, "
-                "fixed_digits padding, huge ints, 16-17 digit floats) for every converter kind x position of the variable in the rule; "
+                "fixed_digits padding, huge ints, 16-17 digit floats) for every converter kind x position of the variable in the rule, and a fixed set of "
+                "histories on one Map and adapter (round trip, mutate every dict match() returned by pop / set / clear, round trip with the same input dict, "
+                "clear the input dict, round trip with fresh values or a MultiDict; rules with defaults and no converters incl. '/', with converters, a defaults "
+                "pair, a placeholder default, below Submount / Subdomain, every script root); "
                 "non-trivial = distinct built URL that needs percent-coding, carries a query, is external, or comes from a map with defaults")
     ctx.assumptions += [
         "Deliver: relative URLs are requested from the adapter's own host; the server strips the script root, percent-decodes the path as UTF-8 and passes the query apart",
@@ -114,6 +119,20 @@ def run(ctx: Ctx):
         ctx.notes[name] = r.invariant_violated
         if not r.invariant_violated:
             raise tlc.MachineryError(f"{cfg}: the pre-fix model no longer violates the laws (vacuity)")
+    # histories on one Map: heap model of "match returns a fresh dict, build copies what it is given"; the aliasing variants must fail
+    ctx.model_check(AREA, "RoutingAlias", "MCAlias_fresh", timeout=600)
+    for cfg, name in (("MCAlias_alias", "match_handing_out_rule_defaults_model_violates"), ("MCAlias_retain", "build_retaining_given_dict_model_violates")):
+        r = tlc.run_tlc(AREA, "RoutingAlias", cfg, workers=ctx.workers, tmp=ctx.tmp, allow_violation=True, timeout=600)
+        ctx.notes[name] = r.invariant_violated
+        if not r.invariant_violated:
+            raise tlc.MachineryError(f"{cfg}: the aliasing model variant no longer violates the invariants (vacuity)")
+    # concurrent first use: lock + _remap flag protocol of Map.update(); clearing the flag early / dropping the lock must fail
+    ctx.model_check(AREA, "RoutingUpdate", "MCUpdate_late", timeout=600)
+    for cfg, name in (("MCUpdate_early", "flag_cleared_before_sorting_model_violates"), ("MCUpdate_nolock", "update_without_lock_model_violates")):
+        r = tlc.run_tlc(AREA, "RoutingUpdate", cfg, workers=ctx.workers, tmp=ctx.tmp, allow_violation=True, timeout=600)
+        ctx.notes[name] = r.invariant_violated
+        if not r.invariant_violated:
+            raise tlc.MachineryError(f"{cfg}: the update protocol variant no longer violates the invariants (vacuity)")
     exported = [v for cfg in (("MCBuild_x" if q else "MCBuild_xt"), "MCBuild_xd", "MCBuild_xg", "MCBuild_xp", "MCBuild_xs")
                 for v in ctx.export(AREA, "MCBuild", cfg, count_states=False, timeout=3000) if isinstance(v, dict) and "map" in v]
     ctx.notes["model_cases_exported"] = len(exported)
@@ -128,6 +147,8 @@ def run(ctx: Ctx):
     edges = edge_cases()    # deterministic boundary values per converter kind x position: part of every run, no random draw
     ctx.notes["edge_cases"] = len(edges)
     jobs += [("edge", c) for c in edges]
+    jobs += [("alias", c) for c in alias_cases()]
+    jobs += [("conc", c) for c in concurrent_cases()]   # thread A parked inside Map.update()'s sort, thread B does a round trip   # histories: mutate what match() returned / what build() was given, go round again
     jobs += [("sweep", c) for c in sweep_cases(BOUNDARY_POINTS if q else sorted(set(BOUNDARY_POINTS) | set(range(0, 0x800, 1)) | set(range(0x800, 0x11000, 97))))]
     n = 1800 if q else 30000
     jobs += [("rand", ctx.seed * 1000003 + i) for i in range(n)]
